@@ -411,9 +411,16 @@ def resize_image_to_macro_block(
     return image
 
 
+def _frame_number(frame_name: str) -> int:
+    """Returns the number in a frame file name such as ``frame_07.png``."""
+    return int(frame_name.rsplit(".", 1)[0].rsplit("_", 1)[-1])
+
+
 def _load_images(frames_dir: str) -> list:
+    # Sorted by frame number: the lexicographic order of the file names is
+    # only correct while all numbers have the same number of digits.
     frames = [
         os.path.join(frames_dir, frame)
-        for frame in sorted(os.listdir(frames_dir))
+        for frame in sorted(os.listdir(frames_dir), key=_frame_number)
     ]
     return [imageio.imread(frame) for frame in frames]
